@@ -508,6 +508,13 @@ class BodyPartReader:
         if self._at_eof:
             return
         while not self._at_eof:
+            if self._unread:
+                # readline() was used on this part: the line it read ahead is
+                # not in the stream any more, so go on line by line.
+                if not await self.readline() and self._content.at_eof():
+                    # Truncated body, the closing boundary will never come
+                    self._at_eof = True
+                continue
             await self.read_chunk(self.chunk_size)
 
     async def text(self, *, encoding: str | None = None) -> str:
